@@ -182,6 +182,12 @@ ensures
     r.0 is Some ==> r.0->Some_0.text() == openqasm_code_text@ && r.0->Some_0.is_source_file(),     //@C02:tree-spells-the-input
     exists|l: oq3_parser::LexedStr| l.src() == openqasm_code_text@ && (r.0 is None) == (l.err_tokens().len() > 0)
         && (r.0 is None ==> r.1@.len() == l.err_tokens().len()),                                    //@C11:tree-withheld-iff-lexical-diagnostic''')
+    # everything else these files hold (Display impls, kind <-> raw kind, the rest of source_file.rs / api.rs / validation.rs): read by
+    # no contract, pinned so that a change is "no verdict" rather than a silent pass
+    _n = 0
+    for _fc in (se, sn, sf, ap, f, va):
+        _n += _fc.guard_rest('not read by any contract of unit SYNX: text pinned')
+    U.n_pinned = getattr(U, 'n_pinned', 0) + _n
     U.assumed_dep = ['LexedStr::new / errors_is_empty / text_range / to_input, TopEntryPoint::parse: contracts proved in units LEX, SHORT, PARSER, restated over a ghost view',
                      'rowan / text-size: TextRange::new asserts start <= end; TextSize::try_from(usize) fails iff the value exceeds u32',
                      'build_tree (FnMut sink over GreenNodeBuilder): assumed to build a tree that spells the lexed text (unit SHORT proves the steps cover it)']
